@@ -208,7 +208,7 @@ def cases(tier, seed):
             ('stext', [None, 'after', 'before']),
             ('analysis', [None, 'header', 'text']),
             ('seg_order', [None] + SEG_ORDERS),
-            ('via', ['path', 'handle-peeked', 'handle-twice', 'path-after-edit', 'handle-unlinked', 'handle-replaced']),   # from an open file object that has been read from before; again after an in-place edit of the first load
+            ('via', ['path', 'handle-peeked', 'handle-twice', 'path-after-edit', 'handle-unlinked', 'handle-replaced', 'path-then-rewritten']),   # from an open file object that has been read from before; again after an in-place edit of the first load
             ('offset_format', ['zero', 'left', 'right'])]             # offsets in TEXT zero-padded or blank-padded within their fields
     k = 2 if tier == 'quick' else 3
     bases = [dict(kind='int', widths=[16], byteord='4,3,2,1', rk=['full']),
@@ -258,9 +258,11 @@ def cases(tier, seed):
                 yield c
     # (C) refused layouts: each must raise
     refusals = [('mode', 'H'), ('mode', 'C'), ('mode', 'U'), ('datatype', 'A'),
-                ('byteord', '3,4,1,2'), ('byteord', '2,1,4,3'), ('byteord', '2,3,1,4'),
                 ('byteord', '4,3,2,1,0'), ('byteord', ''), ('bits', 10), ('bits', 12), ('bits', 72),
                 ('bits', 4), ('bits', 20)]
+    # every order of four bytes other than the two supported ones, and spellings of other lengths
+    refusals += [('byteord', ','.join(p_)) for p_ in itertools.permutations('1234') if ','.join(p_) not in ('1,2,3,4', '4,3,2,1')]
+    refusals += [('byteord', b_) for b_ in ('1,2,3', '3,2,1', '1', '2,1,3,4,5', '1,2,3,4,5,6,7,8', '8,7,6,5,4,3,2,1', '1,2,3,4,8,7,6,5', '1234', '1 2 3 4', '1,2,3,4,')]
     for r in refusals:
         for base in bases[:4]:
             for version in ('FCS3.0', 'FCS2.0'):
@@ -295,7 +297,22 @@ def run_case(c):
                     first[...] = first.max() if first.dtype.kind != 'f' else 7.0      # in-place edit of the first load (a caller's own business)
                     first[0, 0] = 0
                 via = 'path'
-            if via == 'path':
+            if via == 'path-then-rewritten':
+                # loaded by path; then the same file is overwritten in place with another acquisition of the same layout (an instrument
+                # re-exporting to the same name): what was loaded is a record of the file as it was
+                f = FlowCal.io.FCSFile(path)
+                data = f.data
+                d = FlowCal.io.FCSData(path)
+                other = dict(lay, events=[[(v ^ 0x55) % (2 ** min(w, 62)) for v, w in zip(row, lay['bits'])] for row in lay['events']])
+                obuf, _ = fcsgen.build(dict(other))
+                if len(obuf) == info['length']:
+                    with open(path, 'r+b') as fo:
+                        fo.write(obuf)
+                        fo.flush()
+                        os.fsync(fo.fileno())
+                data = np.array(data)
+                d = d.copy()
+            elif via == 'path':
                 f = FlowCal.io.FCSFile(path)
                 data = f.data
                 d = FlowCal.io.FCSData(path)
